@@ -4,6 +4,7 @@ CONSTANTS
  OrigIds = {"o1", "o2", "o3", "o4", "r1", "r2", "r3", "r4"}
  RampIds = {"r1", "r2", "r3", "r4"}
  DestIds = {"d1", "d2", "d3", "d4"}
+ InvalTable <- NoInvalTable
  NameOf <- TraceNameOf
  InvalImplicitNodes = TRUE
  DestNameWrite = FALSE
